@@ -38,7 +38,7 @@ Theorem C05_genuine_clauses : forall open q g h,
      time_of_time64 (h_rx h) (q_ref q) <= time_of_time64 (h_tx h) (q_ref q)) /\
   (is_interleaved q h = true ->
      time_of_time64 (q_psrx q) (q_ref q) <= time_of_time64 (h_tx h) (q_ref q)) /\
-  (forall src, g_front g = FrontIP src -> src = q_server q) /\
+  (forall src sport, g_front g = FrontIP src sport -> src = q_server q /\ sport = q_port q) /\
   (forall v, g_front g = FrontSCION v ->
      sv_last v = 0 /\ sv_src_ia v = q_server_ia q /\ sv_src_host v = Some (q_server q) /\
      sv_dst_ia v = q_local_ia q /\ sv_dst_host v = Some (q_local q)).
@@ -85,6 +85,14 @@ Theorem C05_others_never_offset : forall open q evs,
 Proof. exact recv_loop_others. Qed.
 Print Assumptions C05_others_never_offset.
 
+(* "comes from the queried server": address AND port - a datagram from the server's address but another
+   UDP source port (another process on that host, a sender that spoofs only the address) never yields
+   an offset, wherever it arrives in the loop and whatever it carries *)
+Theorem C05_other_port_never_offset : forall open q nr g src sport,
+  g_front g = FrontIP src sport -> sport <> q_port q -> forall r, handle open q nr (EvDgram g) <> SAccept r.
+Proof. exact other_port_not_accepted. Qed.
+Print Assumptions C05_other_port_never_offset.
+
 (* a genuine datagram that the loop reaches is accepted (the check does not
    reject what the property allows); clock_sane = the client's own two stamps
    are in order, otherwise ValidateResponseTimestamps returns an error *)
@@ -130,6 +138,17 @@ Theorem C05_stored_cookies_authentic : forall open q evs nr c,
                nts_check open q (g_payload g) = Ok cs /\ In c cs.
 Proof. exact loop_cookies_authentic. Qed.
 Print Assumptions C05_stored_cookies_authentic.
+
+(* the fetcher's pool (ntske.Fetcher.StoreCookie, MaxStoredCookies = 8): storing the cookies of an
+   authentic response never grows the pool beyond eight and puts in nothing but those cookies *)
+Theorem C05_pool_store_bounded : forall cs pool,
+  (length pool <= 8)%nat -> (length (store_cookies pool cs) <= 8)%nat.
+Proof. exact store_cookies_bound. Qed.
+Print Assumptions C05_pool_store_bounded.
+
+Theorem C05_pool_store_from : forall cs pool c, In c (store_cookies pool cs) -> In c pool \/ In c cs.
+Proof. exact store_cookies_from. Qed.
+Print Assumptions C05_pool_store_from.
 
 (* MeasureClockOffsetIP (one to three exchanges): an offset is returned only as the offset of a
    datagram that was genuine for the request outstanding in its exchange - THE request the model
@@ -263,13 +282,23 @@ Definition ex_q (nts : bool) (uid key : bytes) : request :=
      q_ref := 1700000000000000000; q_ctx1 := 1700000000000001000;
      q_pctx := ex_t 0 0; q_psrx := ex_t 0 0; q_pcrx := ex_t 0 0 |}.
 Definition ex_g (src : Z) (payload : bytes) : dgram :=
-  {| g_before := true; g_xflags := 0; g_front := FrontIP src; g_payload := payload; g_crx := 1700000000000900000 |}.
+  {| g_before := true; g_xflags := 0; g_front := FrontIP src 123; g_payload := payload; g_crx := 1700000000000900000 |}.
 
 Definition ex_good : bytes := ex_hdr 36 1 (ex_t 3908988800 5) (ex_t 3908988800 1000000) (ex_t 3908988800 2000000).
 Definition ex_stratum0 : bytes := ex_hdr 36 0 (ex_t 3908988800 5) (ex_t 3908988800 1000000) (ex_t 3908988800 2000000).
 Definition ex_wrong_origin : bytes := ex_hdr 36 1 (ex_t 3908988800 6) (ex_t 3908988800 1000000) (ex_t 3908988800 2000000).
 
 (* a datagram from another address is skipped, the genuine one is accepted *)
+(* the genuine response from the server's address and another port is skipped *)
+Example C05_ex_other_port :
+  recv_loop ex_open_none (ex_q false [] []) 0 0
+    [EvDgram {| g_before := true; g_xflags := 0; g_front := FrontIP 2130706433 124; g_payload := ex_good; g_crx := 1700000000000900000 |}]
+  = LBlocked /\
+  handle ex_open_none (ex_q false [] []) 0
+    (EvDgram {| g_before := true; g_xflags := 0; g_front := FrontIP 2130706433 124; g_payload := ex_good; g_crx := 1700000000000900000 |})
+  = SSkip ESource.
+Proof. split; vm_compute; reflexivity. Qed.
+
 Example C05_ex_skip_then_accept :
   exists r, recv_loop ex_open_none (ex_q false [] []) 0 0 [EvDgram (ex_g 2130706434 ex_good); EvDgram (ex_g 2130706433 ex_good)] = LAccept 1 r.
 Proof. eexists. vm_compute. reflexivity. Qed.
